@@ -350,6 +350,20 @@ class Expander:
         words = node["text"].split(None, 2)
         kind, name = words[1], words[2].strip() if len(words) > 2 else None
         it = self.find(items, kind, name, rel)[0]
+        mark0 = len(self.out.segs)
+        self._do_item(rel, src, items, node, it, kind, name)
+        if kind in ("struct", "enum"):
+            # type visibility widened to `pub` (visibility only): Verus wants datatypes used in specs to be public
+            for sg in self.out.segs[mark0:]:
+                if sg.origin[0] in ("repo", "rewrite"):
+                    m = re.search(r"\b(pub(\([^)]*\))?\s+)?(struct|enum)\s+%s\b" % re.escape(it.name), sg.text)
+                    if m:
+                        if m.group(1) is None or m.group(2):
+                            sg.text = sg.text[:m.start()] + "pub " + m.group(3) + " " + it.name + sg.text[m.end():]
+                            self.vis_narrowed += 0
+                        break
+
+    def _do_item(self, rel, src, items, node, it, kind, name):
         override = None
         extra_attrs = []
         for c in node["children"]:
@@ -617,7 +631,7 @@ class Expander:
                     d.setdefault(cc["text"].split()[0], []).extend(clause_lines(cc))
             else:
                 raise ValueError("%s:%d unknown fn directive %r" % (self.tmpl_path, c["line"], c["text"]))
-        if an.self_kind == "mut self":
+        if an.self_kind == "mut self" and not any(re.search(a, src[it.start:an.sig_end]) and not re.search(r"(?<![&\w])\s*mut self\b", re.sub(a, b, src[it.start:an.sig_end]).replace("&mut self", "&MUTSELF")) for a, b in spec["sigsubs"]):
             self.skipped.append("%s (%s): `mut self` receiver unsupported by Verus" % (fnid, rel))
             return
         line = src.count("\n", 0, it.kw_start) + 1
@@ -628,7 +642,14 @@ class Expander:
         # signature
         sig_a = it.start
         kw = it.toks[it.ti_kw]
-        if kw.text == "pub" and it.toks[it.ti_kw + 1].text != "(":
+        if kw.text == "pub" and it.toks[it.ti_kw + 1].text == "(" and it.toks[it.ti_kw + 2].text != "crate":
+            # pub(super) / pub(in path): there are no parent modules in the flattened unit
+            close = rlex.match_close(it.toks, it.ti_kw + 1)
+            self.emit_repo(rel, src, it.start, kw.start)
+            self.out.add("pub(crate)", ("rewrite", rel, kw.start))
+            sig_a = it.toks[close].end
+            self.vis_narrowed += 1
+        elif kw.text == "pub" and it.toks[it.ti_kw + 1].text != "(":
             # visibility narrowed (pub -> pub(crate)): no run-time meaning; lets contracts mention private fields
             self.emit_repo(rel, src, it.start, kw.start)
             self.out.add("pub(crate)", ("rewrite", rel, kw.start))
@@ -660,6 +681,7 @@ class Expander:
             # attribute filtering on the rebuilt text
             txt = re.sub(r"#\[(allow|inline|must_use|doc|track_caller)[^\]]*\]\s*", "", txt)
             txt = re.sub(r"^(\s*)pub fn", r"\1pub(crate) fn", txt)
+            txt = re.sub(r"\bpub\((super|in [^)]*)\)", "pub(crate)", txt)
             self.out.add(txt, ("rewrite", rel, it.start))
         else:
             self.emit_repo(rel, src, sig_a, an.sig_end)
